@@ -1,17 +1,21 @@
 """C15 — instructions act only on accounts that belong to the pool they name (Engine K)."""
 ID = 'C15'
 LEVEL = 'model_checking'
-TECHNIQUE = 'bounded model checking of the compiled code (Kani/CBMC, SAT): Anchor-generated try_accounts + handlers and Pinocchio handler prefixes over symbolic keys, signer flags and account bytes'
+TECHNIQUE = ('bounded model checking of the compiled code (Kani/CBMC, SAT): Anchor-generated try_accounts + handlers and Pinocchio handler prefixes over symbolic keys, signer flags and account bytes; '
+             'symbolic execution of the MIR of the Anchor-generated try_accounts (22 struct tasks: every has_one / address / constraint / mut / Signer check executed, Anchor library loaders as summaries) and of the payout / '
+             'Pinocchio liquidity handlers in handler mode into integer SMT (z3 5.1): relations demanded by the property on every accepting path')
 FUNCTIONS = [
     'Anchor-generated <Accounts>::try_accounts + instructions::*::handler of the instructions in the coverage table (k/src/c04.rs, k/src/c15.rs)',
     'pinocchio::instructions::{increase_liquidity, decrease_liquidity, increase_liquidity_v2, decrease_liquidity_v2, increase_liquidity_by_token_amounts_v2, reposition_liquidity_v2}::handler (prefix up to Clock::get; tick-array loading up to pino_calculate_modify_liquidity)',
     'pinocchio AccountIterator::*, load_account(_mut), load_token_program_account, load_tick_array(_mut), TickArraysMut::load, verify_address, verify_constraint',
     'pino_verify_position_authority, util::verify_position_authority(_interface), util::validate_owner',
     'Engine M handler mode: instructions::{collect_fees, collect_reward, two_hop_swap}(::v2)::handler, pinocchio liquidity handlers (call order and arguments)',
+    'Engine M on generated code: <{CollectFees, CollectFeesV2, CollectReward(V2) x index 0..2, CollectProtocolFees(V2), Swap, SwapV2, UpdateFeesAndRewards, ClosePosition, SetRewardEmissions(V2) x index 0..2} as Accounts>::try_accounts',
 ]
 BOUNDS = ['unwind 34-40; Pinocchio v2/reposition instruction data: every argument byte symbolic, enum/option tag bytes fixed to 0 (method variant 0, remaining_accounts_info = None); handler-level tick arrays are 148-byte accounts behind a recording loader model, the real loader is decided separately on one 10 004-byte symbolic account',
           'keys, signer flags and relevant account fields fully symbolic; account data sizes fixed to the real LEN of each account type']
 ASSUMPTIONS = [
+    'c15m (Engine M): the Anchor LIBRARY loaders (<Account<T> / Signer / Program / ... as Accounts>::try_accounts) hand out the next account with symbolic key, data of the field type and flags, or fail; Signer implies is_signer (Anchor contract); named Pubkey constants are fixed distinct values',
     'reward_index < 3 (index >= 3 panics in the generated code); PDA seeds hashed by an ideal-hash memo only for <= 3 seeds of <= 32 bytes (asserted); CPI helpers record their arguments; Clock::get arbitrary; Rent::get fails (prefix)',
     'error conversions replaced by code-preserving stubs; message formatting stubbed',
     'sysvar syscalls (Clock/Rent) stubbed: prefix harnesses stop at the first sysvar call',
